@@ -154,7 +154,7 @@ func typedCase(ctx context.Context, rep *mon.Reporter, rng *mon.Rand, cfg mon.Co
 	in := g.genInput(inTy)
 	spec := g.genSpec(cont, inTy, in, 0)
 	env := &tenv{atomic: anyAtomic(spec)}
-	ref := evalSpec(spec, pend{in, spec.In, !env.atomic && (splittable(in, spec.In) || in == nil), spec.In}, refEnv{atomic: env.atomic})
+	ref := evalSpec(spec, pend{V: in, Ty: spec.In, Multi: !env.atomic && (splittable(in, spec.In) || in == nil), STy: spec.In}, refEnv{atomic: env.atomic})
 
 	wit := map[string]any{"program": spec.render(), "spec": spec, "input": canon(in), "reference": ref.String(), "nil_sites": ref.allEvents()}
 	b := buildSpec(spec, env)
